@@ -7,7 +7,28 @@ def v_result(s): return s.split(' ; ')[0].strip()          # value / error, not 
 def v_class(s):                                           # ok / err / crash class only
     t = s.strip().split(' ')[0]
     return t if t in ('ok', 'err') else s.strip()
-VIEWS = {'full': v_full, 'result': v_result, 'class': v_class}
+def fields(s):
+    """`a ; b ; key x ; key y` -> dict: positional parts as 0,1,.. and keyword parts by their first word"""
+    d = {}
+    for i, part in enumerate(x.strip() for x in s.split(' ; ')):
+        d[i] = part
+        w = part.split(' ', 1)
+        if w[0] in ('pre', 'post', 'chk', 'fold', 'idem', 'nodes', 'if3', 'pur', 'rp'): d[w[0]] = w[1] if len(w) > 1 else ''
+    return d
+def pick(*keys):
+    def view(s):
+        d = fields(s)
+        return ' ; '.join(str(d.get(k, '')) for k in keys)
+    return view
+def v_kind(s):                                            # ok / err + error variant (payload-free)
+    t = s.strip().split(' ')
+    return ' '.join(t[:2]) if t[0] == 'err' else t[0]
+def v_okfull(s):
+    s = s.strip()
+    return s if s.startswith('ok') or s in ('same', 'reject') or s.startswith('differs') else s.split(' ')[0]
+VIEWS = {'okfull': v_okfull, 'full': v_full, 'result': v_result, 'class': v_class, 'kind': v_kind,
+         'opt_c05': pick(0, 'pre', 'post'), 'opt_c06': pick(0, 1, 'fold', 'idem', 'nodes', 'pur'), 'opt_c10': pick('chk'),
+         'chk': pick(0), 'chk_exec': pick(0, 1), 'chkbool': pick(0, 1, 'rp')}
 
 def classify(stream, line, exp):
     """coarse class of a case, for the input-distribution table in the evidence"""
@@ -17,6 +38,18 @@ def classify(stream, line, exp):
         return head + (' traced' if not exp.rstrip().endswith('; -') else '')
     if stream == 'num':
         return line.split(' ')[1]
+    if stream.startswith('opt'):
+        d = fields(exp)
+        return f"{d[0].split(' ')[0]} traced={d.get(1, '-') != '-'} if3={d.get('if3')} resolved={d.get('chk', '? ?')[0]} folded={d.get('nodes', '0 0').split(' ')[0] != d.get('nodes', '0 0').split(' ')[-1]}"
+    if stream.startswith('chk'):
+        d = fields(exp)
+        return ' '.join(d[0].split(' ')[:2]) + ' / ' + ' '.join(d.get(1, '').split(' ')[:2])
+    if stream.startswith('call') or stream.startswith('rep'):
+        try: name = bytes.fromhex(line.split(' ')[3 if stream.startswith('rep') else 2]).decode()
+        except Exception: name = '?'
+        return name + ' ' + ' '.join(exp.split(' ')[:2])[:40]
+    if stream in ('scan', 'scanfrag', 'compile', 'parse', 'parsekinds'):
+        return ' '.join(exp.split(' ')[:2]) if exp.startswith('err') else 'ok'
     if stream == 'json':
         return ' '.join(x.strip() for x in exp.split(' ; ')[1:]) + (' nonfinite' if has_nonfinite_literal(line) else '')
     if stream == 'cmp':
@@ -49,8 +82,76 @@ def law_json_same(lines, exp):
         if len(parts) != 3 or parts[1] != 'same' or parts[2] != 'same':
             yield (k, line, e, 'round trip through the JSON value and through JSON text yields the identical tree (same ; same)')
 
+def law_c05(lines, exp):
+    """C05 as stated: resolved tree + value before => identical value after (also for the partially rewritten tree);
+       no three-argument if_then => identical result, value or error"""
+    for k, (line, e) in enumerate(zip(lines, exp)):
+        if not line.startswith('opt '): continue
+        d = fields(e)
+        if 'pre' not in d: continue
+        if d['chk'].split(' ')[0] == 'T' and d['pre'].startswith('ok') and d['post'] != d['pre']:
+            yield (k, line, e, 'resolved tree: value after optimize identical to value before: post ' + d['pre'])
+        elif d['if3'] == 'F' and d['post'] != d['pre']:
+            yield (k, line, e, 'no 3-argument if_then: result after optimize identical to result before: post ' + d['pre'])
+
+def law_c06(lines, exp):
+    for k, (line, e) in enumerate(zip(lines, exp)):
+        if not line.startswith('opt '): continue
+        d = fields(e)
+        if 'pur' not in d:
+            continue
+        n1, n0 = (int(x) for x in d['nodes'].split(' '))
+        if d['pur'] != 'T': yield (k, line, e, 'optimize only calls pure functions with literal arguments and reads no variable (pur T)')
+        elif n1 > n0: yield (k, line, e, 'result has no more nodes than the input')
+        elif d[0].startswith('ok') and d['fold'] != 'F': yield (k, line, e, 'successful result contains no constant-foldable node (fold F)')
+        elif d[0].startswith('ok') and d['idem'] != 'T': yield (k, line, e, 'optimizing the result again changes nothing (idem T)')
+
+def law_c10_opt(lines, exp):
+    for k, (line, e) in enumerate(zip(lines, exp)):
+        if not line.startswith('opt '): continue
+        d = fields(e)
+        if d.get('chk', '').startswith('T') and d['chk'] != 'T T':
+            yield (k, line, e, 'a tree accepted by check_variables_and_functions is still accepted after optimize (chk T T)')
+
+def law_c10(lines, exp):
+    for k, (line, e) in enumerate(zip(lines, exp)):
+        if not line.startswith('chkvf '): continue
+        d = fields(e)
+        if d[0] == 'ok' and (d[1].startswith('err UndefinedVariable') or ' FunctionNotFound ' in d[1] + ' '):
+            yield (k, line, e, 'accepted tree never fails with UndefinedVariable / FunctionNotFound')
+
+def law_c11(lines, exp):
+    for k, (line, e) in enumerate(zip(lines, exp)):
+        if not line.startswith('chkbool '): continue
+        d = fields(e)
+        if d[0] == 'ok' and d.get('rp') == 'T' and d[1].startswith('ok ') and not d[1].startswith('ok B'):
+            yield (k, line, e, 'accepted tree whose result-position variables/calls are Boolean evaluates to a Boolean')
+
+def law_expect(word):
+    def law(lines, exp):
+        for k, (line, e) in enumerate(zip(lines, exp)):
+            if e.strip() != word and not (word == 'same' and e.strip() == 'reject'):
+                yield (k, line, e, word)
+    return law
+
+def law_ok(lines, exp):
+    """law streams answer `ok …` when every law of the property held on that input"""
+    for k, (line, e) in enumerate(zip(lines, exp)):
+        if not e.startswith('ok'):
+            yield (k, line, e, 'ok (all ordering laws hold)')
+
+def law_no_crash(lines, exp):
+    for k, (line, e) in enumerate(zip(lines, exp)):
+        if e.strip() in ('panic', 'crash', 'timeout', 'missing'):
+            yield (k, line, e, 'a value or an error value (no panic, no crash, no hang)')
+
 KNOWN_PREDICATES = {
+    # D3: Value::cmp is not transitive when numeric strings meet numbers, and NaN equals every number
+    'C13-unsafe-collection': lambda stream, line, exp, spec: (stream in ('ord', 'sortlaw') and exp.strip().endswith(' unsafe')),
+    # D3b: slice::sort detects the inconsistent order and panics
+    'C09-sort-unsafe-collection': lambda stream, line, exp, spec: (stream.startswith('call') and line.endswith(' #unsafe') and exp.strip() in ('panic', 'crash')),
     # D9: JSON has no representation for NaN / infinities; serde_json writes null, the value visitor rejects null
     'C12-nonfinite-literal': lambda stream, line, exp, spec: stream.startswith('json') and has_nonfinite_literal(line),
 }
-LAWS = {'json_same': law_json_same}
+LAWS = {'json_same': law_json_same, 'c05': law_c05, 'c06': law_c06, 'c10': law_c10, 'c10_opt': law_c10_opt, 'c11': law_c11,
+        'same': law_expect('same'), 'ok': law_ok, 'no_crash': law_no_crash}
